@@ -295,7 +295,9 @@ def run_case(case):
         obs["max_dev_terminal"] = max(obs.get("max_dev_terminal", 0.0), em, ec)
         # jit vs eager, different interpolation nodes: dynamic scale estimates differ by their rounding sensitivity
         # (measured: 6e-6 for dynamic calibration at nu = 4)
-        tol_t = (1e-5 if (cal == "dynamic" and nu >= 4) else 1e-6) if (cal == "dynamic" or nu >= 4) else 1e-8
+        # nu >= 4: the same two-float64-routes allowance as the off-grid comparison above (1e-5; quick seed 5 measured 1.3e-6 on the
+        # covariance of an uncalibrated nu = 4 filter whose checkpoint run interpolates from a node a tiny gap after a step end)
+        tol_t = (1e-5 if nu >= 4 else 1e-6) if (cal == "dynamic" or nu >= 4) else 1e-8
         if not (em <= tol_t and ec <= tol_t):
             viols.append(util.viol("terminal_values", f"terminal-value routine (clip={clip}) differs from the last checkpoint entry ({em:.3g}/{ec:.3g})", tags=tags))
     sigs = ["|".join(str(tags[k]) for k in ("fact", "cal", "ts", "strategy", "nu")) + "|" + "+".join(sorted(layouts))]
